@@ -23,7 +23,7 @@ RULE = ("case = rule set with 1-4 start conditions, <<EOF>> rules (none / unqual
         "EOF actions that terminate, return or restart, driver that points yyin at a new "
         "source or calls yyrestart after termination; sources that report end of input once "
         "(at a random place, often inside a token) and then go on, with yywrap returning 0 and "
-        "yyin unchanged")
+        "yyin unchanged; programs that start on a string buffer and go on with files through yywrap")
 REQUIRED = {"eof": 50, "eof_rule": 5, "wrap_next": 10, "wrap_next_empty": 1, "newin": 1,
             "restart": 1, "eof_empty_source": 1, "include_mode": 1, "wrap_pop": 3,
-            "soft_end_of_input": 3, "wrap_soft": 10}
+            "soft_end_of_input": 3, "wrap_soft": 10, "string_then_files": 3}
